@@ -447,7 +447,7 @@ func c12WrongTypeAll() *explore.Scenario {
 }
 
 func c12(c *core.Ctx) {
-	c.Budget(100*time.Second, 14*time.Minute)
+	c.Budget(150*time.Second, 14*time.Minute)
 	c.SetRule("scenarios: a real CSession with 1-2 pending calls and one call issued afterwards against a scripted peer that sends a reply with an unknown tag, the same reply twice, a reply of the wrong type, an undecodable / short / impossible-length / oversize frame, a truncated frame then close, or closes (also while several requests are still unwritten on a connection without buffering); one call's own context cancelled, or its deadline reached (context.DeadlineExceeded), at every point while the peer answers everything (the other calls must get their own results); plus client-side read or write errors placed at every Read/Write (1 deviation) and session-context cancellation at every point; all interleavings up to the bound; after its misbehaviour the peer keeps draining and answering, then closes. outcome = per-call classification (own / err / stuck)")
 	c.Assume("'bounded time' is decided as quiescence: a call still parked when nothing is enabled, while the peer keeps draining or has closed, is a hang; I/O deadlines never fire inside an execution")
 	var plans []Plan
